@@ -59,6 +59,9 @@ func optsc(on, off string, k *ast.Node) *ast.Node {
 // Table is the hand-checked table guarding the reference matcher, plus the witnesses of
 // defects that were repaired in /repo (Origin "fixed: ...").
 var Table = []TableEntry{
+	{Name: "fixed-re2-ignorecase-notword", AST: short("W"), Base: ast.Opts{I: true}, RE2: true, Input: "k", Expect: "nomatch",
+		Origin: "fixed: c0cab0c k is an ASCII word character, so \\W cannot match it whatever the case rule; the engine folds the complement ranges and K (KELVIN SIGN) brings k in"},
+
 	// --- documented basics (.NET regular-expression language reference)
 	{Name: "alt-first-wins", AST: ast.Alt(ast.Str("a"), ast.Str("ab")), Input: "ab", Expect: "(0,1)", Origin: ".NET docs: alternation tries left to right"},
 	{Name: "greedy-star", AST: ast.Seq(star(ast.Lit('a')), ast.Lit('a')), Input: "aaa", Expect: "(0,3)", Origin: "greedy backs off one"},
@@ -122,8 +125,6 @@ var Table = []TableEntry{
 var FindingWitnesses = []TableEntry{
 	{Name: "c01-auto-atomic-nonboundary", AST: ast.Seq(plus(short("W")), ast.Anchor(`\B`)), Input: "  a", Expect: "(0,1)",
 		Origin: "backtracking semantics: \\W+ gives one blank back, after which \\B holds between the two blanks"},
-	{Name: "c01-re2-ignorecase-notword", AST: short("W"), Base: ast.Opts{I: true}, RE2: true, Input: "k", Expect: "nomatch",
-		Origin: "k is an ASCII word character, so \\W cannot match it whatever the case rule; the engine folds the complement ranges and K (KELVIN SIGN) brings k in"},
 }
 
 // TableCase converts an entry to a replayable Case.
